@@ -544,7 +544,11 @@ def run_cli(argv):
     logging.disable(logging.CRITICAL)
     try:
         try:
-            return gemato.cli.main(argv)
+            import common
+            with common.watchdog(60):
+                return gemato.cli.main(argv)
+        except common.CaseTimeout:
+            return 'exception:DidNotTerminate'
         except SystemExit as e:
             return e.code if isinstance(e.code, int) else 2
         except Exception as e:
